@@ -7,6 +7,8 @@ from ..absval import abstractor
 from ..engine import Engine
 from ..model import AnalysisError, dotted, norm
 from ..report import Report
+from .. import sym
+from .symutil import S, arg, elem_of, has, is_, mentions, sh, unobj
 from .common import own_nodes, returns
 
 EXPLANATION = (
@@ -17,40 +19,48 @@ EXPLANATION = (
     "(Energy: hamiltonian.expect(state); second moment: (hamiltonian @ hamiltonian).expect(state); variance = second moment - energy**2). "
     "NOT decided: the numeric values of the observables (runtime)."
 )
-ASSUMPTIONS = ["the truth table is evaluated symbolically over three named atoms of one boolean expression"]
+ASSUMPTIONS = ["the truth table is evaluated over the three atoms of the path condition of the storing call, read off the symbolic normal form (pstatic/sym.py)"]
 
 
-def _eval(e: ast.AST, env: dict) -> bool:
-    if isinstance(e, ast.BoolOp):
-        vals = [_eval(v, env) for v in e.values]
-        return all(vals) if isinstance(e.op, ast.And) else any(vals)
-    if isinstance(e, ast.UnaryOp) and isinstance(e.op, ast.Not):
-        return not _eval(e.operand, env)
-    key = norm(e).replace(" ", "")
-    for k, v in env.items():
-        if key == k:
-            return v
-    raise KeyError(norm(e))
+def _tt(t, env_of) -> bool:
+    if t == sym.TRUE:
+        return True
+    if t[0] == "and":
+        return all(_tt(x, env_of) for x in t[1:])
+    if t[0] == "or":
+        return any(_tt(x, env_of) for x in t[1:])
+    if t[0] == "not":
+        return not _tt(t[1], env_of)
+    v = env_of(t)
+    if v is None:
+        raise KeyError(sym.show(t))
+    return v
 
 
 def run(E: Engine, rep: Report, tier: str) -> dict:
     P = E.P
     call = E.fn("pulser.backend.observable.Observable.__call__")
+    Sc = S(E, call)
     # ----------------------------------------------------------------- TT
-    cond = None
-    for n in own_nodes(call):
-        if isinstance(n, ast.If) and "_store" in norm(ast.Module(body=n.body, type_ignores=[])):
-            cond = n.test
-    if cond is None:
-        raise AnalysisError("anchor: storing condition of Observable.__call__ not found")
-    atoms = {}
-    for sub in ast.walk(cond):
-        if isinstance(sub, ast.Compare) and "evaluation_times" in norm(sub.left) and isinstance(sub.ops[0], (ast.Is, ast.IsNot)):
-            atoms[norm(sub).replace(" ", "")] = ("own", isinstance(sub.ops[0], ast.IsNot))
-        if isinstance(sub, ast.Call) and isinstance(sub.func, ast.Attribute) and sub.func.attr == "is_time_in_evaluation_times":
-            atoms[norm(sub).replace(" ", "")] = ("in_own", True)
-        if isinstance(sub, ast.Call) and isinstance(sub.func, ast.Attribute) and sub.func.attr == "is_evaluation_time":
-            atoms[norm(sub).replace(" ", "")] = ("in_default", True)
+    st = [l for l in Sc.log if l.kind == "call" and l.target is not None and l.target[0] == "attr" and l.target[2] == "_store"]
+    if not st:
+        raise AnalysisError("anchor: storing call of Observable.__call__ not found")
+    cond = st[-1].cond
+    seen = set()
+    tols = set()
+
+    def classify(t):
+        """(atom name, polarity) of a leaf of the storing condition."""
+        if t[0] == "cmp" and t[1] in ("Is", "IsNot") and sym.NONE in (t[2], t[3]) and ("attr", ("name", "self"), "evaluation_times") in (t[2], t[3]):
+            return "own", t[1] == "IsNot"
+        if t[0] == "call" and t[1][0] == "attr" and t[1][2] == "is_time_in_evaluation_times":
+            tols.update(v for k, v in t[3] if k == "tol")
+            return "in_own", True
+        if t[0] == "call" and t[1][0] == "attr" and t[1][2] == "is_evaluation_time":
+            tols.update(v for k, v in t[3] if k == "tol")
+            return "in_default", True
+        return None
+
     ok = True
     bad_rows = []
     try:
@@ -59,11 +69,16 @@ def run(E: Engine, rep: Report, tier: str) -> dict:
                 for in_def in (False, True):
                     if not own and in_own:
                         continue  # t cannot be in non-existing own times
-                    env = {}
-                    for k, (nm, pol) in atoms.items():
-                        val = {"own": own, "in_own": in_own, "in_default": in_def}[nm]
-                        env[k] = val if pol else (not val)
-                    got = _eval(cond, env)
+                    vals = {"own": own, "in_own": in_own, "in_default": in_def}
+
+                    def env_of(t):
+                        c = classify(t)
+                        if c is None:
+                            return None
+                        seen.add(c[0])
+                        return vals[c[0]] if c[1] else not vals[c[0]]
+
+                    got = _tt(cond, env_of)
                     want = (own and in_own) or ((not own) and in_def)
                     if got != want:
                         ok = False
@@ -71,75 +86,81 @@ def run(E: Engine, rep: Report, tier: str) -> dict:
     except KeyError as e:
         ok = False
         bad_rows.append(f"condition has an atom the rule does not know: {e}")
-    rep.check(ok and len({v[0] for v in atoms.values()}) == 3, "TT", "Observable.__call__|stores-iff-own-times-else-default-times", "stores iff (own and t in own) or (not own and t in default) -- 6 rows",
-              f"the storing condition `{norm(cond)[:160]}` deviates from the documented behaviour: {bad_rows}", E.where(call, cond))
-    # the tolerance handed to both membership tests is the same
-    tols = {norm(k.value) for sub in ast.walk(cond) if isinstance(sub, ast.Call) for k in sub.keywords if k.arg == "tol"}
-    rep.check(len(tols) == 1, "TT", "Observable.__call__|same-tolerance", f"tolerance {sorted(tols)}", f"different tolerances {sorted(tols)} for own and default times", E.where(call, cond))
+    rep.check(ok and seen == {"own", "in_own", "in_default"}, "TT", "Observable.__call__|stores-iff-own-times-else-default-times", "stores iff (own and t in own) or (not own and t in default) -- 6 rows",
+              f"the storing condition `{sh(cond, 200)}` deviates from the documented behaviour: {bad_rows}", E.where(call, st[-1].node))
+    rep.check(len(tols) == 1, "TT", "Observable.__call__|same-tolerance", f"tolerance {[sh(t, 60) for t in tols]}", f"different tolerances {[sh(t, 60) for t in tols]} for own and default times", E.where(call, st[-1].node))
     rep.floor("TT", 2)
 
     # -------------------------------------------------------------- GUARD
     run_ = E.fn("pulser_simulation.qutip_backend.QutipBackendV2.run")
-    zeros = [n for n in own_nodes(run_) if isinstance(n, ast.Call) and (dotted(n.func) or "").endswith("zeros")]
+    Sr = S(E, run_)
+    zeros = [l for l in Sr.log if l.kind == "call" and l.target is not None and l.target[0] == "attr" and l.target[2] == "zeros"]
     if not zeros:
         rep.ok("GUARD", "QutipBackendV2.run|no-zero-matrix-literal", "no zero matrix is built", E.where(run_))
     for z in zeros:
-        shape = z.args[0] if z.args else None
-        lit = shape is not None and all(isinstance(x, ast.Constant) for x in (shape.elts if isinstance(shape, (ast.Tuple, ast.List)) else [shape]))
-        rep.check(not lit, "GUARD", f"QutipBackendV2.run|qudit-dimension-not-hard-coded|{norm(z)[:30]}", f"accumulator sized by {norm(shape) if shape is not None else '?'}",
-                  f"`{norm(z)}` hard-codes the single-atom dimension: with a three- or four-level basis (two bases addressed, or leakage) the stochastic branch cannot accumulate the density matrices", E.where(run_, z))
+        shape = arg(z, 0)
+        dims = shape[1:] if shape is not None and shape[0] in ("tuple", "list") else (shape,)
+        lit = shape is not None and all(x is not None and x[0] == "const" for x in dims)
+        rep.check(not lit, "GUARD", f"QutipBackendV2.run|qudit-dimension-not-hard-coded|np.zeros({sh(shape, 20)})", f"accumulator sized by {sh(shape, 60)}",
+                  f"`{sh(z.value, 60)}` hard-codes the single-atom dimension: with a three- or four-level basis (two bases addressed, or leakage) the stochastic branch cannot accumulate the density matrices", E.where(run_, z.node))
     # both branches call the observables the same way
-    obs_calls = [n for n in own_nodes(run_) if isinstance(n, ast.Call) and isinstance(n.func, ast.Name) and n.func.id == "obs"]
-    kwsets = {tuple(sorted(k.arg for k in c.keywords if k.arg)) for c in obs_calls}
-    rep.check(len(obs_calls) == 2 and len(kwsets) == 1 and set(next(iter(kwsets))) == {"config", "t", "state", "hamiltonian", "result"}, "GUARD", "QutipBackendV2.run|observables-called-uniformly", "noiseless and stochastic branches call obs(config, t, state, hamiltonian, result)", f"observable call sites differ: {sorted(kwsets)}", E.where(run_))
+    obs_calls = [l for l in Sr.log if l.kind == "call" and l.target is not None and l.target[0] == "elem" and l.target[1] == sym.Pattern("self._config.observables").term]
+    kwsets = {tuple(sorted(k for k, _v in c.value[3])) for c in obs_calls}
+    branches_ = {tuple(x for x in sym.conj_of(c.cond)) for c in obs_calls}
+    rep.check(len(obs_calls) >= 2 and len(branches_) >= 2 and len(kwsets) == 1 and set(next(iter(kwsets))) == {"config", "t", "state", "hamiltonian", "result"} and all(not c.value[2] for c in obs_calls), "GUARD", "QutipBackendV2.run|observables-called-uniformly", "noiseless and stochastic branches call obs(config, t, state, hamiltonian, result)", f"observable call sites differ: {sorted(kwsets)} in {len(branches_)} branch(es)", E.where(run_))
     sr = E.fn("pulser.backend.results.Results._store_raw")
-    src = norm(sr.node)
-    dup = any(isinstance(n, ast.If) and norm(n.test) == "time in _times" and any(isinstance(x, ast.Raise) for x in n.body) for n in own_nodes(sr))
-    asc = any(isinstance(n, ast.Assert) and "_times[-1] < time" in norm(n.test) for n in own_nodes(sr))
+    Ss = S(E, sr)
+    times = sym.Pattern("self._times.setdefault(uuid, [])").term
+    dup = any(l.kind == "raise" and any(x == sym.mk_cmp("In", ("name", "time"), t_) for x in sym.conj_of(l.cond) for t_ in (times,) + tuple(o for o in sym.subterms(x) if o[0] == "obj" and o[2] == times)) for l in Ss.log)
+    asc = any(l.kind == "test" and isinstance(l.node, ast.Assert) and any(is_(x, "Q_t[-1] < time") is not None and unobj(is_(x, "Q_t[-1] < time")["Q_t"]) == times for x in sym.subterms(l.value)) for l in Ss.log)
     rep.check(dup, "GUARD", "Results._store_raw|one-value-per-time", "a second value for the same time is rejected", "Results._store_raw no longer rejects a repeated time", E.where(sr))
     rep.check(asc, "GUARD", "Results._store_raw|ascending-times", "times must be ascending", "Results._store_raw no longer requires ascending times", E.where(sr))
-    rep.check("_times.append(time)" in src and ".append(value)" in src, "GUARD", "Results._store_raw|paired-append", "time and value appended together", "times and values are no longer appended together", E.where(sr))
+    apps = [l for l in Ss.calls("append")]
+    t_app = any(unobj(l.target[1]) == times and arg(l, 0) == ("name", "time") for l in apps)
+    v_app = any(is_(unobj(l.target[1]), "self._results.setdefault(uuid, [])") is not None and arg(l, 0) == ("name", "value") for l in apps)
+    rep.check(t_app and v_app, "GUARD", "Results._store_raw|paired-append", "time and value appended together", "times and values are no longer appended together (under the same uuid)", E.where(sr))
     # energy observables
     dom = "pulser.backend.default_observables"
     en = E.fn(dom + ".Energy.apply")
-    rep.check(any(norm(r.value).replace(" ", "") == "hamiltonian.expect(state)" for r in returns(en)), "GUARD", "Energy.apply|<H>", "hamiltonian.expect(state)", "Energy no longer returns hamiltonian.expect(state)", E.where(en))
+    rep.check(is_(S(E, en).ret, "hamiltonian.expect(state)") is not None, "GUARD", "Energy.apply|<H>", "hamiltonian.expect(state)", f"Energy no longer returns hamiltonian.expect(state): {sh(S(E, en).ret, 100)}", E.where(en))
     e2 = E.fn(dom + ".EnergySecondMoment.apply")
     ev = E.fn(dom + ".EnergyVariance.apply")
-
-    def result_expr(f):
-        for n in own_nodes(f):
-            if isinstance(n, (ast.Assign, ast.AnnAssign)) and norm(n.targets[0] if isinstance(n, ast.Assign) else n.target) == "result":
-                return n.value
-        return None
-
-    r2, rv = result_expr(e2), result_expr(ev)
-    hs_ok = all(any(isinstance(n, ast.Assign) and norm(n.targets[0]) == "h_state" and norm(n.value).replace(" ", "") == "hamiltonian.apply_to(state)" for n in own_nodes(f)) for f in (e2, ev))
-    rep.check(hs_ok, "GUARD", "Energy moments|H-applied-to-the-given-state", "h_state = hamiltonian.apply_to(state) in both", "the energy moments no longer apply the given hamiltonian to the given state", E.where(e2))
-    ok = r2 is not None and isinstance(rv, ast.BinOp) and isinstance(rv.op, ast.Sub) and norm(rv.left) == norm(r2) and norm(rv.right).replace(" ", "") == "state.overlap(h_state)"
-    rep.check(ok, "SIB", "EnergyVariance|second-moment-minus-squared-mean", "variance = <second-moment expression> - state.overlap(h_state)", f"EnergyVariance computes `{norm(rv) if rv is not None else '?'}` while EnergySecondMoment computes `{norm(r2) if r2 is not None else '?'}`: the variance must be the second moment minus the squared mean", E.where(ev))
+    r2, rv = S(E, e2).ret, S(E, ev).ret
+    M2 = "pm.sqrt(Q_h.overlap(Q_h).real)"
+    m2 = has(r2, M2)
+    mv = has(rv, M2 + " - state.overlap(Q_h)")
+    hs = sym.Pattern("hamiltonian.apply_to(state)").term
+    rep.check(m2 is not None and mv is not None and unobj(m2["Q_h"]) == hs and unobj(mv["Q_h"]) == hs, "GUARD", "Energy moments|H-applied-to-the-given-state", "h_state = hamiltonian.apply_to(state) in both", "the energy moments no longer apply the given hamiltonian to the given state", E.where(e2))
+    rep.check(m2 is not None and mv is not None, "SIB", "EnergyVariance|second-moment-minus-squared-mean", "variance = <second-moment expression> - state.overlap(h_state)", f"EnergyVariance computes `{sh(rv, 160)}` while EnergySecondMoment computes `{sh(r2, 120)}`: the variance must be the second moment minus the squared mean", E.where(ev))
     rep.floor("SIB", 1)
     # H(t) handed to the observables is evaluated on the emulator's own time axis, identically in both branches
-    gh = [n for n in own_nodes(run_) if isinstance(n, ast.Call) and isinstance(n.func, ast.Attribute) and n.func.attr == "get_hamiltonian"]
-    targs = {norm(c.args[0]).replace(" ", "") for c in gh if c.args}
-    res_ctor = [n for n in own_nodes(run_) if isinstance(n, ast.Call) and (dotted(n.func) or "") == "Results"]
-    td = next((norm(k.value) for c in res_ctor for k in c.keywords if k.arg == "total_duration"), "")
-    rep.check(len(gh) == 2 and targs == {"t*res.total_duration"} and td == "self._sim_obj.total_duration_ns", "GUARD", "QutipBackendV2.run|hamiltonian-at-emulated-time", "H(t * res.total_duration) with res.total_duration = the emulator's total duration, in both branches",
-              f"the Hamiltonian handed to the observables is evaluated at {sorted(targs)} (Results.total_duration = {td}): relative times must be scaled by the emulator's own total duration (which includes modulation fall time), identically in both branches", E.where(run_))
+    ok = len(obs_calls) >= 2
+    why = ""
+    for c in obs_calls:
+        kw = dict(c.value[3])
+        h = kw.get("hamiltonian")
+        gh = [x for x in sym.subterms(h) if x[0] == "call" and x[1][0] == "attr" and x[1][2] == "get_hamiltonian"] if h is not None else []
+        m = is_(gh[0][2][0], "Q_t * Q_res.total_duration") if gh and gh[0][2] else None
+        res = unobj(m["Q_res"]) if m else None
+        good = m is not None and m["Q_t"] == kw.get("t") and m["Q_res"] == kw.get("result") and res is not None and res[0] == "call" and dict(res[3]).get("total_duration") == sym.Pattern("self._sim_obj.total_duration_ns").term
+        if not good:
+            ok, why = False, sh(gh[0] if gh else h, 160)
+    rep.check(ok, "GUARD", "QutipBackendV2.run|hamiltonian-at-emulated-time", "H(t * res.total_duration) with res.total_duration = the emulator's total duration, in both branches",
+              f"the Hamiltonian handed to the observables is evaluated at {why}: relative times must be scaled by the emulator's own total duration (which includes modulation fall time), identically in both branches", E.where(run_))
     # several basis states can read as the same bitstring (g and h both read 0 with three levels): probabilities accumulate
     bp = E.fn("pulser_simulation.qutip_state.QutipState.bitstring_probabilities")
-    acc = [n for n in own_nodes(bp) if isinstance(n, (ast.Assign, ast.AugAssign)) and isinstance((n.targets[0] if isinstance(n, ast.Assign) else n.target), ast.Subscript) and "bitstring" in norm(n.targets[0] if isinstance(n, ast.Assign) else n.target)]
-    rep.check(bool(acc) and all(isinstance(n, ast.AugAssign) and isinstance(n.op, ast.Add) for n in acc), "GUARD", "QutipState.bitstring_probabilities|accumulates", "probabilities of basis states reading as the same bitstring are summed (+=)", "bitstring probabilities are assigned instead of accumulated: with 3+ levels several basis states map to one bitstring and all but one are lost", E.where(bp))
+    Sp = S(E, bp)
+    retd = Sp.ret
+    writes = [l for l in Sp.log if l.kind in ("store", "aug") and l.target is not None and l.target[0] == "idx" and l.loops and sym.contains(retd, l.target[1])]
+    rep.check(bool(writes) and all(l.kind == "aug" and l.op == "Add" for l in writes), "GUARD", "QutipState.bitstring_probabilities|accumulates", "probabilities of basis states reading as the same bitstring are summed (+=)", "bitstring probabilities are assigned instead of accumulated: with 3+ levels several basis states map to one bitstring and all but one are lost", E.where(bp))
     # operator application on a density matrix is A rho A^dagger
     ap = E.fn("pulser_simulation.qutip_op.QutipOperator.apply_to")
-    ok = False
-    for n in own_nodes(ap):
-        if isinstance(n, ast.If) and "isoper" in norm(n.test):
-            for st in n.body:
-                if isinstance(st, ast.Assign) and isinstance(st.value, ast.BinOp) and isinstance(st.value.op, (ast.Mult, ast.MatMult)):
-                    ok = norm(st.value.right).replace(" ", "") == "self._operator.dag()" and norm(st.value.left) == norm(st.targets[0])
-    left = any(isinstance(n, ast.Assign) and isinstance(n.value, ast.BinOp) and norm(n.value.left) == "self._operator" and "state._state" in norm(n.value.right) for n in own_nodes(ap))
-    rep.check(ok and left, "GUARD", "QutipOperator.apply_to|A-rho-A-dagger", "ket: A|psi>; density matrix: A rho A^dagger", "applying an operator to a density matrix is no longer A rho A^dagger (the right factor must be the adjoint)", E.where(ap))
+    ra = S(E, ap).ret
+    op_, st_ = sym.Pattern("self._operator").term, sym.Pattern("state._state").term
+    dag = sym.Pattern("self._operator.dag()").term
+    want = sym.mk_ifexp(("attr", st_, "isoper"), ("mul", op_, st_, dag), ("mul", op_, st_))
+    rep.check(sym.contains(ra, want), "GUARD", "QutipOperator.apply_to|A-rho-A-dagger", "ket: A|psi>; density matrix: A rho A^dagger", f"applying an operator to a density matrix is no longer A rho A^dagger (the right factor must be the adjoint): {sh(ra, 200)}", E.where(ap))
     ex = E.fn("pulser_simulation.qutip_op.QutipOperator.expect")
-    rep.check(any("qutip.expect(self._operator, state._state)" in norm(r.value) for r in returns(ex)), "GUARD", "QutipOperator.expect|qutip.expect(op,state)", "expectation = qutip.expect(operator, state)", "QutipOperator.expect changed", E.where(ex))
+    rep.check(has(S(E, ex).ret, "qutip.expect(self._operator, state._state)") is not None, "GUARD", "QutipOperator.expect|qutip.expect(op,state)", "expectation = qutip.expect(operator, state)", "QutipOperator.expect changed", E.where(ex))
     rep.floor("GUARD", 11)
-    return {"atoms": {k: v[0] for k, v in atoms.items()}}
+    return {"atoms": sorted(seen)}
